@@ -157,7 +157,19 @@ def edit(rng, spec, model, n=None, only=None, extra=(), skip=()):
             # list order is part of a model: a fresh build lists the successors of j by ascending index, the
             # in-place call appends - the same order only if i is behind every present successor of j
             last_succ = max([x for x, t in enumerate(s["tasks"]) if any(d[0] == j for d in t["deps"])] or [-1])
-            if i > last_succ and not any(d[0] == j for d in s["tasks"][i]["deps"]):
+            # ... and never a cycle (some families register a head task last: index order is not topological there)
+            def _reaches(a, b):
+                todo, seen = [a], set()
+                while todo:
+                    x = todo.pop()
+                    if x == b:
+                        return True
+                    if x in seen:
+                        continue
+                    seen.add(x)
+                    todo.extend(k_ for k_, t_ in enumerate(s["tasks"]) if any(d[0] == x for d in t_["deps"]))
+                return False
+            if i > last_succ and not any(d[0] == j for d in s["tasks"][i]["deps"]) and not _reaches(i, j):
                 kind = rng.choice([0, 0, 1, 2, 3])
                 s["tasks"][i]["deps"].append([j, kind])
                 model.tasks[i].append_input_task(model.tasks[j], ns.BaseTaskDependency(kind))
